@@ -6,7 +6,7 @@ WT=/tmp/wts-$NAME-$$
 git -C /repo worktree add -q --detach $WT HEAD || exit 2
 # the run regenerates coq/Gen from the patched tree: put the committed files back afterwards
 trap 'git -C /repo worktree remove --force $WT; git -C /verif checkout -- coq/Gen 2>/dev/null' EXIT
-( cd $WT && git apply /verif/seeded/$NAME/patch.diff ) || { echo "PATCH-DOES-NOT-APPLY"; exit 3; }
+( cd $WT && ( git apply /verif/seeded/$NAME/patch.diff 2>/dev/null || git apply -3 /verif/seeded/$NAME/patch.diff ) ) || { echo "PATCH-DOES-NOT-APPLY"; exit 3; }
 cd /verif && VERIF_REPO=$WT ./check $PROP --tier $TIER > /tmp/try_seed.$$.out 2>&1
 RC=$?
 grep -E "^(VIOLATION|REPLAY|Traceback|RuntimeError)" /tmp/try_seed.$$.out | head -10
